@@ -438,6 +438,7 @@ impl SessionShardInterface {
 //@ loop 1
             invariant
                 n_shards == shard_list@.len(),
+                dry0 == self.dry_run, hc0 == shard_bytes_uploaded.vx_is_shared(),
                 /*@C14*/ shard_uploads.joined_c() == 0 && shard_uploads.joined_h() == 0,
                 /*@C14*/ forall|t: TaskRec<_>| #[trigger] shard_uploads.recs().count(t) > 0 ==> shard_rec_ok(dry0, hc0, t),
                 /*@C16*/ n_sp == vx_it.index@,          // one task spawned per shard taken from the list so far
@@ -461,7 +462,7 @@ impl SessionShardInterface {
             decreases shard_uploads@.len(),
 //@ after `jh??;`
             proof { acc_v = acc_v + outcome_val(shard_uploads.last().outcome); }
-//@ before `Ok(shard_bytes_uploaded.load`
+//@ before `Ok(shard_bytes_uploaded`
         // (c) Ok is returned only with the own task set drained and every result Ok(Ok(_))
         proof { /*@C16*/ vx_mark_shards_stored(self, pend0, shard_uploads@); lemma_drained_all(pend0, shard_uploads@); }
         proof {
